@@ -46,6 +46,8 @@ def configs(tier, seed):
         for P in (3, 5):
             for thr in ([0.2, -0.5] if shp == (1, 1, 3, 3) or tier == "thorough" else [0.2]):
                 out.append(dict(shape=list(shp), thr=thr, refinement="integral", patch=P))
+    for shp, P in ([((1, 1, 3, 3), 4), ((1, 2, 1, 4), 2)] + ([((2, 1, 2, 2), 4), ((1, 1, 3, 3), 6)] if tier == "thorough" else [])):  # even patch sizes
+        out.append(dict(shape=list(shp), thr=0.2, refinement="integral", patch=P))
     out.append(dict(shape=None, validate=True, seed=seed))
     return out
 
@@ -172,7 +174,7 @@ def run_config(cfg):
                           on_sat=lambda m, env: ("O5-values", "integral refinement changed a peak value", extract(m, env)))
                 rv = rpts.values()
                 half = Fraction(P - 1, 2)
-                r = (P - 1) // 2
+                r = P // 2  # cells that influence the P x P samples: (P-1)/2 for odd P, P/2 for even P (half-pixel bilinear samples)
                 for k, (s_, c_, y, x) in enumerate(got):
                     patch = [cv[((s_ * C + c_) * H + a) * W + b] for a in range(y - r, y + r + 1) for b in range(x - r, x + r + 1) if 0 <= a < H and 0 <= b < W]
                     nonneg = And(*[rcmp(">=", p.v, 0) for p in patch])
